@@ -58,7 +58,8 @@ type lm struct {
 	lastSpend       map[int]ref.Hash // serialized mode: wallet -> last spend vertex
 	tainted         bool             // a known finding broke conservation for good in this world
 	stuck           error
-	genesisIssuerIn bool // some transfer targets the genesis issuer address
+	clipped         map[string]bool // addresses whose checkpointed net was negative at some truncation (C07)
+	genesisIssuerIn bool            // some transfer targets the genesis issuer address
 	pendingCreated  []lmCreated
 	twinsDiverged   bool
 	staleTips       map[ref.Hash]bool
